@@ -94,3 +94,76 @@ contract(F + "AbstractGrader.apply_attempt_based_credit", props=["C17", "C01"],
             "  and entry_after(result['input_list'][i], old(result['input_list'][i]['grade_decimal']), old(result['input_list'][i]['ok']), old(result['input_list'][i]['msg']), credit if i < K else 1))",
         ])},
     covers=["is_long(result) and len(result['input_list']) == 2", "not is_long(result) and result['grade_decimal'] > 0"])
+
+
+# ---------------------------------------------------------------------------------------------- ItemGrader.check (C08)
+@spec
+def answer_shape(a):
+    # a canonical answer alternative: dict with an expect *tuple* (validate_expect_tuple), grade, ok, msg
+    return (is_dict(a) and allocated(a) and has_keys(a, 'expect', 'grade_decimal', 'msg', 'ok') and is_tuple(a['expect'])
+            and allocated(a['expect']))
+
+
+@spec
+def canonical_answers(answers):
+    return is_tuple(answers) and allocated(answers) and forall(range(len(answers)), lambda i: answer_shape(answers[i]))
+
+
+@spec
+def check_self(self):
+    return (has_attr(self, 'config') and is_dict(self.config) and allocated(self.config)
+            and has_keys(self.config, 'answers', 'wrong_msg') and is_str(self.config['wrong_msg']))
+
+
+CHECK_RESPONSE = dict(
+    params=['answercopy_arg', 'student_input_arg'],
+    requires=["is_dict(answercopy_arg)", "has_keys(answercopy_arg, 'expect', 'grade_decimal', 'msg', 'ok')",
+              "same(answercopy_arg['expect'], entry)",
+              "same(answercopy_arg['grade_decimal'], answer['grade_decimal']) and same(answercopy_arg['msg'], answer['msg']) and same(answercopy_arg['ok'], answer['ok'])",
+              "not same(answercopy_arg, answer)"],
+    ensures=["fresh(result)", "entry_shape(result)",
+             # determinism of check_response for this grader and this submission: grade and message are functions of the alternative and the expect value
+             "result['grade_decimal'] == ufn('GRADE', answer, entry)", "result['msg'] == ufn('MSG', answer, entry)"],
+    exsures={"*": "True"}, modifies=[],
+    note="abstract method ItemGrader.check_response: returns a fresh well-formed entry whose grade and message are functions of (alternative, expect value) for the fixed grader and submission, or raises; writes nothing the caller can reach")
+
+contract(F + "ItemGrader.check", props=["C08", "C01", "C11"],
+    requires=["check_self(self)", "is_none(answers) or canonical_answers(answers)",
+              "implies(is_none(answers), canonical_answers(self.config['answers']))"],
+    ghost={'A': "self.config['answers'] if is_none(answers) else answers"},
+    callees={"self.check_response": CHECK_RESPONSE},
+    exsures={"ConfigError": "len(A) == 0", "*": "True"},
+    ensures=[
+        "len(A) > 0",
+        # the returned object is a fresh, well-formed entry (one of check_response's results; the membership itself is an
+        # existential the solver leaves undecided -- bounded tier) ...
+        "fresh(result) and entry_shape(result)",
+        # ... and no alternative x expect value earns more
+        "forall(range(len(A)), lambda i: forall(range(len(A[i]['expect'])), lambda j: ufn('GRADE', A[i], A[i]['expect'][j]) <= result['grade_decimal']))",
+        "forall(range(len(results)), lambda m: results[m]['grade_decimal'] <= result['grade_decimal'])",
+        # a blank message with a zero grade is never returned unless wrong_msg itself is blank
+        # (longest-message tie-break: existential, bounded tier)
+        "implies(result['grade_decimal'] == 0 and result['msg'] == '', self.config['wrong_msg'] == '')",
+    ],
+    modifies=[],
+    loops={
+        "for answer in answers": dict(
+            modifies=["results"],
+            invariant=[
+                "is_list(results) and fresh(results) and is_tuple(answers) and same(answers, A)",
+                "len(results) == prefix_count(answers, K, 'expect')",
+                "forall(range(len(results)), lambda m: fresh(results[m]) and entry_shape(results[m]) and not same(results[m], results))",
+                "forall(range(0, K), lambda i: forall(range(len(answers[i]['expect'])), lambda j: "
+                "   results[prefix_count(answers, i, 'expect') + j]['grade_decimal'] == ufn('GRADE', answers[i], answers[i]['expect'][j])))",
+            ]),
+        "for entry in answer['expect']": dict(
+            modifies=["results", "answercopy"],
+            invariant=[
+                "is_list(results) and fresh(results) and is_dict(answercopy) and fresh(answercopy) and not same(answercopy, results)",
+                "has_keys(answercopy, 'expect', 'grade_decimal', 'msg', 'ok') and same(answercopy['grade_decimal'], answer['grade_decimal']) and same(answercopy['msg'], answer['msg']) and same(answercopy['ok'], answer['ok'])",
+                "len(results) == pre(len(results)) + K",
+                "forall(range(len(results)), lambda m: fresh(results[m]) and entry_shape(results[m]) and not same(results[m], results) and not same(results[m], answercopy))",
+                "forall(range(0, pre(len(results))), lambda m: same(results[m], pre(results[m])))",
+                "forall(range(0, K), lambda j: results[pre(len(results)) + j]['grade_decimal'] == ufn('GRADE', answer, answer['expect'][j]))",
+            ]),
+    })
